@@ -63,8 +63,7 @@ Lock(steps, k, m) ==
          IN IF C = {} THEN k ELSE Lock(steps, k + 1, (CHOOSE r \in C : TRUE).s)
 
 \* state invariants C03..C06 "after every accepted user action, undo or redo", along whole sessions
-NoDupL(j) == Cardinality({<<p[1], p[2]>> : p \in Rng(j.t2n)}) = Len(j.t2n)
-             /\ Cardinality({<<p[1], p[2]>> : p \in Rng(j.l2n)}) = Len(j.l2n)
+NoDupL(j) == NoDupLookups(j)
 StateOK(name, j) ==
     LET O == DecO(j) IN
     CASE name = "C03" -> Forest(O)
@@ -89,6 +88,12 @@ Report ==
        /\ (("C02" \in Check) => (w = 0 \/ PrintT(<<"FAIL", "C02", i, w>>)))
        /\ \A name \in Check \cap {"C03", "C04", "C05", "C06", "C07", "C08", "C09"} :
              LET b == FirstBad(Rec.steps, 1, name) IN (b = 0 \/ PrintT(<<"FAIL", name, i, b>>))
+       \* C06: the queries are asked ONCE, after the last call of the session (asking re-sorts the lookup lists)
+       /\ (("C06" \in Check /\ Len(Rec.steps) > 0) =>
+             LET j == Rec.final
+                 O == DecO(j)
+             IN ((Forest(O) /\ TidOK(O) /\ LidOK(O) /\ TidOn(O)) => QueriesOK(j, O))
+                \/ PrintT(<<"FAIL", "C06", i, Len(Rec.steps)>>))
        /\ (("REF" \in Check) =>
              LET d == Lock(Rec.steps, 1, ModelOf(init)) IN (d = 0 \/ PrintT(<<"DRIFT", i, d>>)))
 Inv == Report
